@@ -486,7 +486,14 @@ def main():
             rec['after_exit'] = leak_snapshot()
             pool = None
             gc.collect()
-            time.sleep(0.1)
+            # the store behind get_insights() is shut down when the pool object is released: give it a moment
+            t_end = time.time() + 2.0
+            while time.time() < t_end:
+                time.sleep(0.1)
+                snap = leak_snapshot()
+                if not [c for c in snap['children'] if c['state'] != 'Z' and 'resource_tracker import main' not in c['cmd']
+                        and 'forkserver import main' not in c['cmd']]:
+                    break
             rec['after_release'] = leak_snapshot()
             res['cycles'].append(rec)
             flush()
